@@ -211,3 +211,14 @@ def contains_opaque(v):
     if isinstance(v, StructV):
         return any(contains_opaque(x) for x in v.fields.values())
     return False
+
+
+def field_of(v, cls, prefer=None):
+    """the field of struct value v that holds a `cls` value: the one called `prefer` if there is one, else the only one
+    of that kind (private field names are not API: a parsed view is recognised by what it stores)"""
+    if not isinstance(v, StructV):
+        return None
+    if prefer is not None and isinstance(v.fields.get(prefer), cls):
+        return v.fields[prefer]
+    hits = [x for k, x in v.fields.items() if isinstance(x, cls) and not str(k).startswith("__")]
+    return hits[0] if len(hits) == 1 else None
